@@ -168,30 +168,34 @@ class Socket(base_socket.BaseSocket):
         if self.connected:
             # the socket was already connected, so this is an upgrade
             self.upgrading = True  # hold packet sends during the upgrade
+            try:
+                pkt = websocket_wait()
+                decoded_pkt = packet.Packet(encoded_packet=pkt)
+                if decoded_pkt.packet_type != packet.PING or \
+                        decoded_pkt.data != 'probe':
+                    self.server.logger.info(
+                        '%s: Failed websocket upgrade, no PING packet',
+                        self.sid)
+                    self.upgrading = False
+                    return []
+                ws.send(packet.Packet(packet.PONG, data='probe').encode())
+                self.queue.put(packet.Packet(packet.NOOP))  # end poll
 
-            pkt = websocket_wait()
-            decoded_pkt = packet.Packet(encoded_packet=pkt)
-            if decoded_pkt.packet_type != packet.PING or \
-                    decoded_pkt.data != 'probe':
-                self.server.logger.info(
-                    '%s: Failed websocket upgrade, no PING packet', self.sid)
+                pkt = websocket_wait()
+                decoded_pkt = packet.Packet(encoded_packet=pkt)
+                if decoded_pkt.packet_type != packet.UPGRADE:
+                    self.upgraded = False
+                    self.server.logger.info(
+                        ('%s: Failed websocket upgrade, expected UPGRADE '
+                         'packet, received %s instead.'),
+                        self.sid, pkt)
+                    self.upgrading = False
+                    return []
+                self.upgraded = True
                 self.upgrading = False
-                return []
-            ws.send(packet.Packet(packet.PONG, data='probe').encode())
-            self.queue.put(packet.Packet(packet.NOOP))  # end poll
-
-            pkt = websocket_wait()
-            decoded_pkt = packet.Packet(encoded_packet=pkt)
-            if decoded_pkt.packet_type != packet.UPGRADE:
-                self.upgraded = False
-                self.server.logger.info(
-                    ('%s: Failed websocket upgrade, expected UPGRADE packet, '
-                     'received %s instead.'),
-                    self.sid, pkt)
+            finally:
+                # a failed or aborted handshake must not leave polling on hold
                 self.upgrading = False
-                return []
-            self.upgraded = True
-            self.upgrading = False
         else:
             self.connected = True
             self.upgraded = True
